@@ -378,6 +378,28 @@ func genC16(t *rapid.T) c16Scenario {
 		}
 		sc.Configs = append(sc.Configs, cur)
 	}
+	if !sc.Store && rapid.IntRange(0, 5).Draw(t, "recreate") == 0 {
+		// a cache is removed (its servers move to another cache for one configuration) and created
+		// again under its old name: it must come back as empty as a fresh start has it
+		base := sc.Configs[0]
+		if len(base.Servers) > 0 {
+			x := base.Servers[rapid.IntRange(0, len(base.Servers)-1).Draw(t, "recreateOf")].Cache
+			mid := cloneA(base)
+			for i := range mid.Caches {
+				if mid.Caches[i] == x {
+					mid.Caches[i] = "cMoved"
+				}
+			}
+			for i := range mid.Servers {
+				if mid.Servers[i].Cache == x {
+					mid.Servers[i].Cache = "cMoved"
+				}
+			}
+			sc.Configs = []aConfig{base, mid, cloneA(base)}
+			sc.DetourMs = 0
+			return sc
+		}
+	}
 	if rapid.IntRange(0, 9).Draw(t, "endEmpty") < 2 {
 		// a last configuration that keeps everything but lists no server any more
 		last := cloneA(cur)
@@ -619,6 +641,40 @@ func execC16raw(sc c16Scenario) *vstat.Outcome {
 		}
 	}
 	retainURI := "/p1/retain?size=100&type=text/plain&cc=300"
+	// a memory-only cache that is absent from some configuration in between and present again at the
+	// end (removed and re-created under the same name): what it held before must be gone, as after a fresh start
+	recreated, staleURI, stalePrimed := "", "/p1/stale?size=100&type=text/plain&cc=300", false
+	if !sc.Store && len(sc.Configs) >= 3 {
+		finalCfg := sc.Configs[len(sc.Configs)-1]
+		has := func(c aConfig, cn string) bool {
+			for _, x := range c.Caches {
+				if x == cn {
+					return true
+				}
+			}
+			return false
+		}
+		for _, cn := range sc.Configs[0].Caches {
+			if !has(finalCfg, cn) {
+				continue
+			}
+			for _, c := range sc.Configs[1 : len(sc.Configs)-1] {
+				if !has(c, cn) {
+					recreated = cn
+				}
+			}
+		}
+		if recreated != "" {
+			for _, s := range sc.Configs[0].Servers {
+				if s.Cache == recreated {
+					r := pget(cl, fmt.Sprintf("127.0.0.1:%d", livePorts[s.Slot]), "h1.test", staleURI, nil)
+					r2 := pget(cl, fmt.Sprintf("127.0.0.1:%d", livePorts[s.Slot]), "h1.test", staleURI, nil)
+					stalePrimed = r.Err == "" && r.Code == 200 && r2.Err == "" && r2.Header.Get("X-Status") == "hit"
+					break
+				}
+			}
+		}
+	}
 	// with a store the working set is larger than the memory of the cache: most of the
 	// entries live in the store only and must come back from there
 	var retainMore []string
@@ -857,6 +913,18 @@ func execC16raw(sc c16Scenario) *vstat.Outcome {
 			}
 		}
 	}
+	if stalePrimed {
+		for _, s := range final.Servers {
+			if s.Cache == recreated {
+				r := pget(cl, fmt.Sprintf("127.0.0.1:%d", livePorts[s.Slot]), "h1.test", staleURI, nil)
+				if r.Err == "" && r.Header.Get("X-Status") == "hit" {
+					out.Violate("C16", "recreated-cache-not-empty", "cache %s (memory only) was removed by an update and created again by a later one; a response it held before its removal is still served as a hit through server slot %d -- an instance freshly started with the final configuration has to fetch it", recreated, s.Slot)
+				}
+				out.Class("removed_and_recreated_cache_checked")
+				break
+			}
+		}
+	}
 	lastEmpty := len(final.Servers) == 0 && (emptyChecks < 1 || vstat.Tier() == "thorough" && emptyChecks < 4)
 	if lastEmpty {
 		emptyChecks++
@@ -865,14 +933,14 @@ func execC16raw(sc c16Scenario) *vstat.Outcome {
 	if len(removedSlots) > 0 && os.Getenv("VERIF_C16_SKIP_GRACE") == "" && (lastEmpty || graceChecks < 2 || len(removedSlots) >= 2 && graceChecks < 4 || vstat.Tier() == "thorough" && graceChecks < 12) {
 		graceChecks++
 		// removed servers stop listening (pike closes them after a 10 s grace period)
-		deadline := time.Now().Add(14 * time.Second)
+		deadline := time.Now().Add(40 * time.Second)
 		for slot := range removedSlots {
 			addr := fmt.Sprintf("127.0.0.1:%d", livePorts[slot])
 			for !portClosed(addr) && time.Now().Before(deadline) {
 				time.Sleep(250 * time.Millisecond)
 			}
 			if !portClosed(addr) {
-				out.Violate("C16", "removed-server-listening", "server slot %d was removed from the configuration but still accepts connections 14 s later", slot)
+				out.Violate("C16", "removed-server-listening", "server slot %d was removed from the configuration but still accepts connections 40 s later", slot)
 			}
 		}
 		out.Class("removed_server_checked")
